@@ -195,12 +195,12 @@ func ZZ_C17_KindAndReplicas() {
 	p, e := zzPortVar("np.p"), zzPortVar("np.e")
 	vf_Assume(p <= e)
 	x := zzProbeX()
-	labels := map[string]string{"app": "x"}
+	labels := map[string]string{"app": "x", "example.com/canary": ""} // an empty label value is legal
 	ports := []corev1.ContainerPort{{Name: "http", ContainerPort: zzPortVar("x.http")}}
 	rest := []parser.K8sObject{
 		zzDeployObj("ns1", "b", map[string]string{"app": "b"}, nil),
 		zzNetpolObj("ns1", "np1", netv1.NetworkPolicySpec{
-			PodSelector: metav1.LabelSelector{MatchLabels: labels},
+			PodSelector: metav1.LabelSelector{MatchLabels: map[string]string{"app": "x"}},
 			PolicyTypes: []netv1.PolicyType{netv1.PolicyTypeIngress, netv1.PolicyTypeEgress},
 			Ingress: []netv1.NetworkPolicyIngressRule{
 				{From: []netv1.NetworkPolicyPeer{{PodSelector: zzSel("app", "b")}}, Ports: []netv1.NetworkPolicyPort{zzPortRange(corev1.ProtocolTCP, p, e)}},
@@ -274,5 +274,50 @@ func ZZ_C17_DistinctWorkloads() {
 		}
 	}
 	vf_Assert(nw == 2, "every-workload-is-a-peer")
+	vf_Observe("nw", nw)
+}
+
+// C17: bare pods that only carry a non-controller ownerReference to a common object are distinct workloads
+func ZZ_C17_NonControllerOwnerReference() {
+	var ctl *bool
+	switch vf_Choose("controller", 3) {
+	case 1:
+		f := false
+		ctl = &f
+	case 2:
+		tr := true
+		ctl = &tr
+	}
+	sameLabels := vf_Choose("sameLabels", 2) == 1
+	l2 := map[string]string{"app": "w"}
+	if sameLabels {
+		l2 = map[string]string{"app": "v"}
+	}
+	objs := []parser.K8sObject{
+		zzPodObjRef("ns1", "api", map[string]string{"app": "v"}, "ConfigMap", "shared", ctl),
+		zzPodObjRef("ns1", "worker", l2, "ConfigMap", "shared", ctl),
+		zzDeployObj("ns1", "client", map[string]string{"app": "c"}, nil),
+	}
+	_, peers, err := NewConnlistAnalyzer(WithMuteErrsAndWarns()).connsListFromParsedResources(objs)
+	isController := ctl != nil && *ctl
+	if isController {
+		// both pods belong to the controller "shared": one peer if the labels agree, otherwise the documented error
+		if !sameLabels {
+			vf_Assert(err != nil, "inconsistent-owner-labels-rejected")
+			return
+		}
+	}
+	vf_Assert(err == nil, "analysis-succeeds")
+	nw := 0
+	for _, pr := range peers {
+		if !pr.IsPeerIPType() {
+			nw++
+		}
+	}
+	if isController {
+		vf_Assert(nw == 2, "pods-of-one-controller-collapse")
+	} else {
+		vf_Assert(nw == 3, "independent-pods-stay-distinct")
+	}
 	vf_Observe("nw", nw)
 }
